@@ -1204,7 +1204,7 @@ def store_cases(ctx, sizes, ks, fail_mode, rot, tmp):
                 for k in ks:
                     multiprocess = k is not None
                     m = n_futures(nl, c, 'procs') if multiprocess else 0
-                    enforce = multiprocess and distinct
+                    enforce = multiprocess and distinct and k >= 1      # read_max_workers=0: the pool constructor refuses (malformed stream)
                     for pi in (feasible(m, k) if enforce else [None]):
                         for fails in fail_patterns([digest(l) for l in dict.fromkeys(present)], fail_mode if distinct else 'light', rot):
                             def observe(frames):
@@ -1239,7 +1239,8 @@ def store_cases(ctx, sizes, ks, fail_mode, rot, tmp):
                                         'completion_order': list(pi) if pi is not None else 'free/serial', 'failing_ids': sorted(d2id[d] for d in fails),
                                         'observed': [ok, repr(payload)], 'serial': [sok, repr(spayload)]},
                                        m=f'c18_read_M {fl} {lit.oz(k)} {lit.z(c)} {nat_list(choices)} {pairs_lit(archive)} {vals_lit(labels)} {obs}',
-                                       s=f'c18_read_S {fl} {pairs_lit(archive)} {vals_lit(labels)} {obs}', py_fail=py_fail,
+                                       s=(f'c18_read_S {fl} {pairs_lit(archive)} {vals_lit(labels)} {obs}' if k != 0 else None),
+                                       py_fail=(py_fail if k != 0 else None),
                                        tags={'op': 'store.read_many', 'workers': k}, nontrivial=(m >= 2 or bool(fails) or not distinct))
 
 
@@ -1419,7 +1420,7 @@ def _cases(ctx):
     # zipped stores
     tmp = tempfile.mkdtemp(prefix='c18_')
     try:
-        yield from store_cases(ctx, (0, 1, 2, 3) if quick else (0, 1, 2, 3, 4), [None, 1, 2, 3] if quick else [None, 1, 2, 3, 4, 8], 'light', rot, tmp)
+        yield from store_cases(ctx, (0, 1, 2, 3) if quick else (0, 1, 2, 3, 4), [None, 0, 1, 2, 3] if quick else [None, 0, 1, 2, 3, 4, 8], 'light', rot, tmp)
         yield from bus_store_cases(ctx, tmp)
     finally:
         shutil.rmtree(tmp, ignore_errors=True)
